@@ -251,6 +251,10 @@ def run(ctx):
         ctx.check(bool(ex) and bad is None, "R11.7", sg, f"set_global_ctx {where}", msg=f"set_global_ctx called {where}: {bad or 'no exit'}", key=f"set_global_ctx {where}",
                   node=program.func(sg), rel="eval.py")
 
+    ctx.rule("R11.8", "while a file is evaluated its context knows its own file path: relative imports are named consistently whoever imports the sibling", floor=1)
+    from .c09 import load_file_identity_rule
+    load_file_identity_rule(ctx, program, "R11.8")
+
     # R11.4 imports bind into the current scope only --------------------------------------------------------------------
     ctx.rule("R11.4", "import statements bind names only through the current scope (closure cell / global declaration aware)", floor=2)
     for h in ("ast_import", "ast_importfrom"):
